@@ -34,6 +34,8 @@ def _conn_calls(funcnode, names):
 
 
 def _nonempty_iter(expr, funcnode):
+    if isinstance(expr, ast.Call) and dotted(expr.func) in ('enumerate', 'list', 'tuple', 'reversed') and len(expr.args) == 1:
+        return _nonempty_iter(expr.args[0], funcnode)
     outs = origins(expr, funcnode)
     if not outs:
         return False
@@ -84,8 +86,10 @@ def transaction_region(ctx):
             a = node.ast
             if node.id in flush_ids:
                 d['flushed'] = True
+                d['fresh'] = True       # nothing may be waited for between the flush and the next send
             if node.id in send_ids:
                 d['sent'] = True
+                d['fresh'] = False
             if isinstance(a, ast.Assign):
                 for t in a.targets:
                     if isinstance(t, ast.Name) and t.id in none_vars:
@@ -98,6 +102,13 @@ def transaction_region(ctx):
             if label == 'exc':
                 return sin
             d = sdict(sout)
+            if node.kind == 'test' and isinstance(node.ast, ast.expr):
+                # `if nr and self.wait_before:` with nr the counter of enumerate(): zero in the first iteration
+                for a, tv in facts_on_side(node.ast, label == 'T'):
+                    if isinstance(a, ast.Name) and d.get('z_' + a.id) == 'zero' and tv:
+                        return None
+                    if isinstance(a, ast.Name) and d.get('z_' + a.id) == 'pos' and not tv:
+                        return None
             if node.kind == 'test':
                 for l, op, r in compare_ops(node.ast):
                     if r == 'None' and l in none_vars and op in ('is', 'isnot'):
@@ -114,6 +125,11 @@ def transaction_region(ctx):
                 if label == 'F' and flag and d.get(flag) == 0 and _nonempty_iter(node.ast.iter, f.node):
                     return None   # zero iterations are infeasible for a non-empty sequence
                 if label == 'T' and flag:
+                    it = node.ast.iter
+                    tg = node.ast.target
+                    if isinstance(it, ast.Call) and dotted(it.func) == 'enumerate' and len(it.args) == 1 and not it.keywords and \
+                            isinstance(tg, ast.Tuple) and isinstance(tg.elts[0], ast.Name):
+                        d['z_' + tg.elts[0].id] = 'zero' if d.get(flag) == 0 else 'pos'
                     d[flag] = 1
                 return sfreeze(d)
             return sout
@@ -125,10 +141,8 @@ def transaction_region(ctx):
                       'a path reaches the send without flushing stale input first: a late or unsolicited reply is returned '
                       'as the reply of this command', f)
         sleeps = {i for c in calls_in(f.node) if call_name(c) in ('time.sleep', 'sleep') for i in cfg.node_of(c)}
-        between = set()
-        for fl in flush_ids:
-            between |= cfg.reach([fl], avoid=send_ids, exc=False)
-        ctx.check(not (between & sleeps), f'{f.qualname}:no wait between flush and send', f.node, 'the flush immediately precedes the send',
+        waited = [i for i in sleeps for st in ins.get(i, ()) if sdict(st).get('fresh')]
+        ctx.check(not waited, f'{f.qualname}:no wait between flush and send', f.node, 'the flush immediately precedes the send',
                   'a sleep lies between the flush of stale input and the send: a late or unsolicited line arriving during that wait is returned as '
                   'the reply of this command', f)
         for c in calls_in(f.node):
@@ -275,27 +289,38 @@ def framing(ctx):
     bufs = _buffers(rl)
     eolnames = {'self.end_of_line'} | {t.id for n in body_walk(rl.node) if isinstance(n, ast.Assign) and src(n.value) == 'self.end_of_line'
                                        for t in n.targets if isinstance(t, ast.Name)}
-    searches = [c for c in calls_in(rl.node) if call_attr(c) in ('split', 'partition', 'find', 'index') and src(c.func.value) in bufs
+    def on_buffer(c):
+        v = c.func.value
+        if isinstance(v, ast.Subscript) and isinstance(v.slice, ast.Slice) and v.slice.upper is None and v.slice.lower is not None:
+            return src(v.value) in bufs      # buffer[start:].partition(eol): an incremental search
+        return src(v) in bufs
+    searches = [c for c in calls_in(rl.node) if call_attr(c) in ('split', 'partition', 'find', 'index') and on_buffer(c)
                 and c.args and src(c.args[0]) in eolnames]
     if not searches:
         ctx.undecided(f'{rl.qualname}:split at first end_of_line', rl.node, 'terminator search not recognised', rl)
     for c in searches:
         kind = call_attr(c)
+        sliced = c.func.value.slice.lower if isinstance(c.func.value, ast.Subscript) else None
+        if sliced is not None:
+            kind = 'find'       # decided like find(eol, start)
+            startexpr = sliced
+        else:
+            startexpr = c.args[1] if len(c.args) > 1 else None
         if kind == 'split':
             ok = len(c.args) == 2 and isinstance(c.args[1], ast.Constant) and c.args[1].value == 1
             ctx.check(ok, f'{rl.qualname}:split at first end_of_line', c, 'split(eol, 1)',
                       f'`{src(c)}` splits at every end_of_line: with two lines in the buffer the unpacking fails / the second line is lost', rl)
         elif kind == 'partition':
             ctx.ok(f'{rl.qualname}:split at first end_of_line', c, 'partition(eol)', rl)
-        elif len(c.args) == 1:
+        elif startexpr is None:
             ctx.ok(f'{rl.qualname}:split at first end_of_line', c, f'{kind}(eol) over the whole buffer', rl)
         else:
-            start = resolved(c.args[1], rl.node)
+            start = resolved(startexpr, rl.node)
             t = src(start)
             # all bindings of the start variable (it is re-bound in the loop)
             cands = [t]
-            if isinstance(c.args[1], ast.Name):
-                cands = [src(v) for v, st, how in local_assigns(rl.node, c.args[1].id) if v is not None]
+            if isinstance(startexpr, ast.Name):
+                cands = [src(v) for v, st, how in local_assigns(rl.node, startexpr.id) if v is not None]
             steps_back = [x for x in cands if 'len(' in x and any(f'len({e})' in x for e in eolnames) and '-' in x]
             plain = [x for x in cands if x.startswith('len(') and x.endswith(')') and x[4:-1] in bufs]
             if plain:
@@ -583,11 +608,28 @@ def calls_fail_or_return_a_reply(ctx):
         cfg = CFG(f.node, m, f.module)
         n = 0
         deadlines = {x.targets[0].id for x in body_walk(f.node) if isinstance(x, ast.Assign) and isinstance(x.targets[0], ast.Name)
-                     and isinstance(x.value, ast.BinOp) and isinstance(x.value.op, ast.Add) and 'time.time()' in src(x.value)}
+                     and any(isinstance(b, ast.BinOp) and isinstance(b.op, ast.Add) and 'time.time()' in src(b) for b in ast.walk(x.value))}
+        # a flag that remembers "the time is up" for the next cycle: `expired = deadline is not None and time.time() >= deadline`
+        flags = {}
+        for x in body_walk(f.node):
+            if isinstance(x, ast.Assign) and isinstance(x.targets[0], ast.Name) and not isinstance(x.value, ast.Constant):
+                for sub in (x.value.values if isinstance(x.value, ast.BoolOp) and isinstance(x.value.op, ast.And) else [x.value]):
+                    for l, op, r in compare_ops(sub):
+                        if op in ('<', '<=') and 'time.time()' in (l, r) and (set((l, r)) & deadlines):
+                            flags[x.targets[0].id] = (l in deadlines)       # True: the flag means "time is up"
         for t in cfg.nodes:
             if t.kind != 'test':
                 continue
             core, neg = _t16(t.ast)
+            if isinstance(core, ast.Name) and core.id in flags:
+                n += 1
+                label = 'T' if (flags[core.id] != neg) else 'F'
+                ctx.check(side_never_completes(cfg, t.id, label) and
+                          not ({x.id for x in cfg.nodes if x.kind == 'test' and isinstance(getattr(x.ast, 'cfg_owner', None), ast.While)} &
+                               cfg.reach([t.id], labels={label}, avoid=[t.id], exc=False)),
+                          f'{f.qualname}:expired deadline raises', t.ast, f'`{src(t.ast)}`: the time-is-up side raises TimeoutError',
+                          f'`{src(t.ast)}`: on the side where the time is up the loop goes on (or returns) instead of raising', f)
+                continue
             parts = core.values if isinstance(core, ast.BoolOp) and isinstance(core.op, ast.And) else [core]
             for sub in parts:
                 for l, op, r in compare_ops(sub):
@@ -611,5 +653,7 @@ def calls_fail_or_return_a_reply(ctx):
                         ctx.check(ok and not loops_on, f'{f.qualname}:expired deadline raises', t.ast, f'`{src(t.ast)}`: the time-is-up side raises TimeoutError',
                                   f'`{src(t.ast)}`: on the side where the time is up the loop goes on (or returns) instead of raising: a silent device blocks the caller '
                                   '(and the communicator lock) beyond its time-out', f)
-        if n < 1:
+        if n < 1 and deadlines:
+            ctx.undecided(f'{f.qualname}:expired deadline raises', f.node, f'the deadline {sorted(deadlines)} is computed, but its comparison was not recognised', f)
+        elif n < 1:
             ctx.bad(f'{f.qualname}:expired deadline raises', f.node, 'no comparison of time.time() with the deadline in the receive loop', f)
